@@ -3,7 +3,7 @@ import json, re
 from vlib import core, gen, behave, spec
 
 LEVEL = "proof"
-TEXT = "The chunker's acceptance criterion (even number of %), losslessness and chunk shape are theorems for all strings (induction over the character list); the factory order and token regexes are pinned to facts regenerated from the shipped wiring; model and implementation are run on every string up to a length bound plus random Unicode and must agree on chunks, tokens, emitted code and %+q quoting. literal_roundtrip (reading the emitted Go literal back yields the original string, for every string) and literal_ascii (%+q output is pure ASCII) are theorems over the quoting model, whose inverse direction is tied to strconv.Unquote; escape_roundtrip covers every string whose % are doubled."
+TEXT = "The chunker's acceptance criterion (even number of %), losslessness and chunk shape are theorems for all strings (induction over the character list); the factory order and token regexes are pinned to facts regenerated from the shipped wiring; model and implementation are run on every string up to a length bound plus random Unicode and must agree on chunks, tokens, emitted code and %+q quoting. literal_roundtrip (reading the emitted Go literal back yields the original string, for every string) and literal_ascii (%+q output is pure ASCII) are theorems over the quoting model, whose inverse direction is tied to strconv.Unquote; escape_roundtrip covers every string whose % are doubled. token_classification: the first-match chain is the documented decision list (registered function, %%, reference, unknown function, malformed token, text); build_rejects_exactly: a balanced pattern is accepted iff no chunk is an unknown-function or malformed token; env / envInt / todo semantics as theorems."
 TECHNIQUE = 'Lean 4 induction proofs over the chunker model + exhaustive bounded/random model-vs-implementation correspondence'
 LEAN_PROPS = ["C03"]
 TRUSTED = ["runtime helpers of body.go.tpl (_concatenateChunks, _getEnv, …) and exporter.CastToString are modelled (Model/Token.evalTokens)"]
